@@ -221,6 +221,13 @@ class Gen:
             if len(body) == 1 and isinstance(body[0], ast.Return) and body[0].value is not None and defs[0].args.args:
                 return self._ev(body[0].value, defs[0].args.args[0].arg, child, parent_op, reduce)
             raise AnalysisError(f"parenthesisation predicate `{lam.id}` is not a one-expression local function")
+        if isinstance(lam, ast.Attribute) and isinstance(lam.value, ast.Name):
+            # a bound method of the generator used as predicate: `self._is_x` with `def _is_x(self, d): return <expr>`
+            m_ = self.methods.get(lam.attr) if hasattr(self, "methods") else None
+            body = [st for st in m_.body if not (isinstance(st, ast.Expr) and isinstance(st.value, ast.Constant))] if m_ is not None else []
+            if len(body) == 1 and isinstance(body[0], ast.Return) and body[0].value is not None and len(m_.args.args) >= 2:
+                return self._ev(body[0].value, m_.args.args[1].arg, child, parent_op, reduce)
+            raise AnalysisError(f"parenthesisation predicate `{ast.unparse(lam)}` is not a one-expression method")
         if not isinstance(lam, ast.Lambda):
             raise AnalysisError("parenthesisation predicate is neither a lambda nor a local one-expression function")
         dvar = lam.args.args[0].arg
